@@ -291,6 +291,16 @@ func (c *V1) Do(op Op) (out Outcome) {
 	case OpUpdate:
 		in := &v1ddb.UpdateItemInput{TableName: aws.String(op.Table), Key: itemV1(op, op.Key), UpdateExpression: updExpr(op),
 			ConditionExpression: condExpr(op), ExpressionAttributeNames: v1Names(op.Names), ExpressionAttributeValues: itemV1(op, op.Values)}
+		for a, u := range op.AttrUpd {
+			if in.AttributeUpdates == nil {
+				in.AttributeUpdates = map[string]*v1ddb.AttributeValueUpdate{}
+			}
+			au := &v1ddb.AttributeValueUpdate{Action: aws.String(u.Action)}
+			if u.Value != nil {
+				au.Value = ToV1(*u.Value)
+			}
+			in.AttributeUpdates[a] = au
+		}
 		in.ReturnConsumedCapacity = strp(op.RetCap)
 		for a, v := range op.Expected {
 			if in.Expected == nil {
